@@ -352,10 +352,11 @@ namespace
             case K_CVT_LOAD:
             case K_CVT_STORE:
                 return (size_t)e.lanes * e.mem_elem;
-            default:
+            default: // incl. the split complex forms: each of their two windows holds `lanes` reals
                 return (size_t)e.lanes * e.elem;
             }
         }
+        static bool is_split(const OpEntry& e) { return e.kind == K_CPLX2_LOAD || e.kind == K_CPLX2_STORE; }
         static bool is_gs(const OpEntry& e) { return e.kind == K_GATHER || e.kind == K_SCATTER || e.kind == K_CVT_GATHER || e.kind == K_CVT_SCATTER; }
         static bool is_cvt(const OpEntry& e) { return e.kind >= K_CVT_LOAD && e.kind <= K_CVT_SCATTER; }
         // small integers that every element type represents exactly: the currency of the converting forms
@@ -718,6 +719,17 @@ namespace
                     woff = place_offset(op.place, op.off, wbytes, (size_t)std::max(1, e.align_req), eb);
                 unsigned char* wptr = g_mem.data + woff;
                 unsigned char* ptr = gs ? wptr - lo * (int64_t)eb : wptr; // gather base: element lo sits at the window start
+                // split complex forms: the imaginary array sits at the opposite kind of place; a load may also pass no imaginary array at all
+                size_t woff2 = 0;
+                bool second = false;
+                if (is_split(e))
+                {
+                    static const int OPPOSITE[N_PLACE] = { PL_L, PL_R, PL_PAGE, PL_MID, PL_L };
+                    second = !(e.kind == K_CPLX2_LOAD && (op.reg_seed & 3) == 0);
+                    woff2 = place_offset(OPPOSITE[op.place], op.off, wbytes, (size_t)std::max(1, e.align_req), eb);
+                    if (woff2 < woff + wbytes && woff < woff2 + wbytes) // cannot happen with the placements above; keep the model honest anyway
+                        woff2 = woff >= DATA / 2 ? 0 : (DATA - wbytes) - ((DATA - wbytes) % (size_t)std::max(1, e.align_req));
+                }
                 switch (op.place)
                 {
                 case PL_HOLE:
@@ -803,6 +815,7 @@ namespace
                         enc(e.tname, small_value(e, rr.next()), reg_in + (size_t)i * e.elem);
                 Ctx c;
                 c.p = ptr;
+                c.p2 = second ? g_mem.data + woff2 : nullptr;
                 c.reg_in = reg_in;
                 c.reg_out = reg_out;
                 c.idx = op.idx.empty() ? nullptr : op.idx.data();
@@ -902,6 +915,19 @@ namespace
                             break;
                         }
                     break;
+                case K_CPLX2_LOAD:
+                    ++cl_cplx;
+                    if (memcmp(reg_out, g_mem.shadow + woff, rb))
+                        out.violate(sim::fmt("C04/lane-mismatch(%s)", e.form), sim::fmt("%s: real lanes are not the elements of the real array", where.c_str()));
+                    if (second ? memcmp(reg_out + rb, g_mem.shadow + woff2, rb) != 0 : !std::all_of(reg_out + rb, reg_out + 2 * rb, [](unsigned char b) { return b == 0; }))
+                        out.violate(sim::fmt("C04/lane-mismatch(%s)", e.form),
+                                    sim::fmt("%s: imaginary lanes are not %s", where.c_str(), second ? "the elements of the imaginary array" : "zero although no imaginary array was passed"));
+                    break;
+                case K_CPLX2_STORE:
+                    ++cl_cplx;
+                    memcpy(g_mem.shadow + woff, reg_in, rb);
+                    memcpy(g_mem.shadow + woff2, reg_in + rb, rb);
+                    break;
                 case K_CPLX_STORE:
                     ++cl_cplx;
                     for (int i = 0; i < e.lanes; ++i)
@@ -994,8 +1020,8 @@ namespace
                     size_t i = 0;
                     while (g_mem.data[i] == g_mem.shadow[i])
                         ++i;
-                    bool inside = i >= woff && i < woff + wbytes;
-                    bool is_store = e.kind == K_STORE || e.kind == K_BOOL_STORE || e.kind == K_CPLX_STORE || e.kind == K_SCATTER || e.kind == K_CVT_STORE || e.kind == K_CVT_SCATTER;
+                    bool inside = (i >= woff && i < woff + wbytes) || (second && i >= woff2 && i < woff2 + wbytes);
+                    bool is_store = e.kind == K_CPLX2_STORE || e.kind == K_STORE || e.kind == K_BOOL_STORE || e.kind == K_CPLX_STORE || e.kind == K_SCATTER || e.kind == K_CVT_STORE || e.kind == K_CVT_SCATTER;
                     std::string cls;
                     if (inside && is_store)
                         cls = e.kind == K_BOOL_STORE && g_mem.data[i] > 1 ? sim::fmt("C04/bool-encoding(%s)", e.form) : sim::fmt("C04/missing-write(%s)", e.form);
